@@ -735,7 +735,7 @@ pub fn run_c12(ctx: &Ctx) -> Report {
     let mut subs = Vec::new();
     // style R: multi-channel sentences
     {
-        let cases = ctx.pick(3_000u64, 40_000, 1_000_000);
+        let cases = ctx.pick(3_000u64, 150_000, 1_000_000);
         let max_steps = ctx.pick(40usize, 80, 300);
         let proto = Sub::new(
             "sentences",
@@ -772,7 +772,7 @@ pub fn run_c12(ctx: &Ctx) -> Report {
     }
     // encode / feed / poll
     {
-        let cases = ctx.pick(3_000u64, 40_000, 1_000_000);
+        let cases = ctx.pick(3_000u64, 150_000, 1_000_000);
         let max_len = ctx.pick(24usize, 48, 200);
         let proto = Sub::new(
             "encode_feed_poll",
